@@ -412,7 +412,7 @@ func init() {
 	register(&property{
 		Meta: propertyMeta{
 			ID:          "C10",
-			Explanation: "(C10-RESET) definite-assignment analysis of Context.Init with reset/Reset inlined by summary: every field of Context and of the embedded responseWriter is assigned on every path before dispatch, except 'router' which is proved request-invariant by who-may-write; adding a field without resetting it fails the check and names the field. (C10-PRISTINE) provenance of each reset value: constant, nil, parameter of Init, address of the context's own writer, or a zero-length re-slice of the field itself; re-sliced fields are never re-sliced beyond their length anywhere in the module. (C10-INIT) ServeHTTP: Get -> Init -> dispatch (C03-POOL); HandleContext: Reset dominates dispatch. (C03-EFF) no request-phase write to package-level or router state, so nothing else survives between requests inside rux. (C10-FRESH) every return of findAllowedMethods is, on every alternative including those that come round a loop, a slice built in that call (append from nil / make), never a slice field of a route or router nor an extension of one. (C08-FACADE, clause 3) every store to Context.Resp stores the address of that same context's own writer: a Copy() that keeps the source's Resp would reach into the pooled context, which by then serves another request.",
+			Explanation: "(C10-RESET) definite-assignment analysis of Context.Init with reset/Reset inlined by summary: every field of Context and of the embedded responseWriter is assigned on every path before dispatch, except 'router' which is proved request-invariant by who-may-write; adding a field without resetting it fails the check and names the field. (C10-PRISTINE) provenance of each reset value: constant, nil, parameter of Init, address of the context's own writer, or a zero-length re-slice of the field itself; re-sliced fields are never re-sliced beyond their length anywhere in the module. (C10-INIT) ServeHTTP: Get -> Init -> dispatch (C03-POOL); HandleContext: Reset dominates dispatch. (C03-EFF) no request-phase write to package-level or router state, so nothing else survives between requests inside rux. (C10-FRESH) every return of findAllowedMethods is, on every alternative including those that come round a loop, a slice built in that call (append from nil / make), never a slice field of a route or router nor an extension of one. (C08-FACADE, clause 3) every store to Context.Resp stores the address of that same context's own writer: a Copy() that keeps the source's Resp would reach into the pooled context, which by then serves another request. (C10-NOGO) no go statement in the module passes a value whose type reaches *Context to the new goroutine (argument, receiver or captured variable), except the result of Context.Copy(): a goroutine that outlives the handler would write into the context of a later request; zero instances today, a fixture with a leaking and a copying goroutine is analysed in every run.",
 			NotDecided:  []string{"state a handler deliberately keeps outside the context (user code)", "equality of the k-th request's outcome with a fresh router's beyond rux's own state (C03/C07 cover shared state)"},
 			Assumptions: []string{"sync.Pool returns either a value previously Put or the result of New", "user handlers do not retain the *Context after the request (documented contract of pooled contexts)"},
 		},
@@ -423,6 +423,7 @@ func init() {
 			{"C03-POOL", ruleC03Pool},
 			{"C03-EFF", ruleC03Eff},
 			{"C08-FACADE", ruleC08Facade},
+			{"C10-NOGO", ruleC10NoGo},
 		},
 	})
 }
@@ -705,3 +706,138 @@ func scratchField(w *World, fv *types.Var) bool {
 	}
 	return ok && loads > 0
 }
+
+// C10-NOGO: the pooled *Context is handed to the next request as soon as dispatch returns (ServeHTTP puts it back,
+// C03-POOL), so "pristine at the start" also needs that nothing started by the library on behalf of the previous
+// request still holds it. The library starts no goroutine today. The rule: no `go` statement in the module passes —
+// as an argument, a receiver or a captured variable — a value whose type reaches *Context, unless that value is the
+// result of Context.Copy() (the detached copy that exists for this purpose). A middleware that runs the rest of the
+// chain in a goroutine and returns on a timer leaves that goroutine writing Set/AddError/Next into the context of a
+// later request. A goroutine that is joined unconditionally before the function returns would also be reported; there
+// is none, and a join that is only one arm of a select is exactly the defect.
+func ruleC10NoGo(r *Run) {
+	w := r.W
+	rule := "C10-NOGO"
+	ctxT := w.Named("rux", "Context")
+	copyFn := w.FnOpt("rux", "Context.Copy")
+	var reaches func(t types.Type, depth int) bool
+	reaches = func(t types.Type, depth int) bool {
+		if depth > 4 {
+			return false
+		}
+		if types.Identical(t, ctxT) {
+			return true
+		}
+		switch u := t.(type) {
+		case *types.Pointer:
+			return reaches(u.Elem(), depth+1)
+		case *types.Slice:
+			return reaches(u.Elem(), depth+1)
+		case *types.Array:
+			return reaches(u.Elem(), depth+1)
+		case *types.Map:
+			return reaches(u.Elem(), depth+1) || reaches(u.Key(), depth+1)
+		case *types.Chan:
+			return reaches(u.Elem(), depth+1)
+		case *types.Named:
+			if st, ok := u.Underlying().(*types.Struct); ok {
+				for i := 0; i < st.NumFields(); i++ {
+					if reaches(st.Field(i).Type(), depth+1) {
+						return true
+					}
+				}
+			}
+		case *types.Struct:
+			for i := 0; i < u.NumFields(); i++ {
+				if reaches(u.Field(i).Type(), depth+1) {
+					return true
+				}
+			}
+		}
+		return false
+	}
+	isCopy := func(v ssa.Value) bool {
+		if a, ok := v.(*ssa.Alloc); ok {
+			if sv := singleStore(a); sv != nil {
+				v = sv
+			}
+		}
+		c, ok := v.(*ssa.Call)
+		return ok && copyFn != nil && staticCallee(c) == copyFn
+	}
+	check := func(f *ssa.Function) (gos int, bad string, badPos token.Pos) {
+		eachInstr(f, func(in ssa.Instruction) {
+			g, ok := in.(*ssa.Go)
+			if !ok {
+				return
+			}
+			gos++
+			var vals []ssa.Value
+			vals = append(vals, g.Call.Args...)
+			if mc, isMC := g.Call.Value.(*ssa.MakeClosure); isMC {
+				vals = append(vals, mc.Bindings...)
+			} else if g.Call.Value != nil {
+				vals = append(vals, g.Call.Value)
+			}
+			for _, v := range vals {
+				if _, isFn := v.(*ssa.Function); isFn {
+					continue
+				}
+				if reaches(v.Type(), 0) && !isCopy(v) && bad == "" {
+					bad, badPos = "the goroutine receives "+v.Name()+" of type "+types.TypeString(v.Type(), relQualifier(w.ByPkg[pkgPath("rux")].Types))+", which reaches the live *Context", w.InstrPos(in)
+				}
+			}
+		})
+		return
+	}
+	total := 0
+	for _, f := range w.Funcs {
+		if strings.Contains(w.Fset.Position(f.Pos()).Filename, "zz_verif_go_fixture") {
+			continue
+		}
+		n, bad, pos := check(f)
+		if n == 0 {
+			continue
+		}
+		total += n
+		if bad == "" {
+			pos = f.Pos()
+		}
+		r.Check(rule, FuncName(f)+":go statements", pos, bad == "", map[bool]string{true: "no goroutine started here can reach the request's pooled context", false: bad + ": the goroutine can outlive the handler, and the pool gives the same context to a later request while it is still being written"}[bad == ""])
+	}
+	r.Exists(rule, "go statements in the module", token.NoPos, true, fmt.Sprintf("%d go statement(s) outside the fixture", total))
+	badF, goodF := w.FnOpt("rux", "zzVerifGoLive"), w.FnOpt("rux", "zzVerifGoCopy")
+	if badF == nil || goodF == nil {
+		r.Undecided(rule, "positive fixture", token.NoPos, "the virtual fixture functions zzVerifGo* are not part of the analysed program")
+		return
+	}
+	_, b1, _ := check(badF)
+	_, b2, _ := check(goodF)
+	r.Check(rule, "fixture:goroutine with the live context is reported", token.NoPos, b1 != "", "the rule recognises a goroutine that captures the handler's context")
+	r.Check(rule, "fixture:goroutine with a Copy() is accepted", token.NoPos, b2 == "", "the rule accepts a goroutine that only gets c.Copy() ("+b2+")")
+}
+
+const goFixture = `package rux
+
+import "time"
+
+// zzVerifGo* exist only in the overlay of the C10 run (C10-NOGO fixture).
+func zzVerifGoLive(c *Context) {
+	done := make(chan struct{})
+	go func() {
+		c.Next()
+		close(done)
+	}()
+	select {
+	case <-done:
+	case <-time.After(time.Second):
+	}
+}
+
+func zzVerifGoCopy(c *Context) {
+	cp := c.Copy()
+	go func() {
+		_ = cp.Param("id")
+	}()
+}
+`
